@@ -84,6 +84,7 @@ func Verif_C03_BlockKernel() {
 	src := verifrt.Bytes(64 * nb)
 	dst := make([]byte, 64*nb)
 	c.xorKeyStreamBlocksGeneric(dst, src)
+	c03CheckPrecomp(c)
 	for b := 0; b < nb; b++ {
 		ks := refBlock(&c.key, ctr0+uint32(b), &c.nonce)
 		for i := 0; i < 64; i++ {
@@ -220,6 +221,22 @@ func c03SetPrecomp(c *Cipher) {
 	c.precompDone = true
 }
 
+// c03CheckPrecomp asserts the cache part of Inv. It is called BEFORE the output bytes are
+// compared: a wrong cached quarter round is a one-quarter-round (solver-easy) difference here,
+// whereas the same defect seen through the output bytes is a 20-round ARX inequivalence on which
+// all three solvers time out (mutant m4 in notes/C03.md).
+func c03CheckPrecomp(c *Cipher) {
+	if c.precompDone {
+		want := &Cipher{key: c.key, nonce: c.nonce}
+		c03SetPrecomp(want)
+		// one bit-vector expression (no && on symbolic operands: that would fork first)
+		diff := (c.p1 ^ want.p1) | (c.p5 ^ want.p5) | (c.p9 ^ want.p9) | (c.p13 ^ want.p13) |
+			(c.p2 ^ want.p2) | (c.p6 ^ want.p6) | (c.p10 ^ want.p10) | (c.p14 ^ want.p14) |
+			(c.p3 ^ want.p3) | (c.p7 ^ want.p7) | (c.p11 ^ want.p11) | (c.p15 ^ want.p15)
+		verifrt.Assert(diff == 0, "cached first-round quarter rounds are correct (checked before the output)")
+	}
+}
+
 // c03CheckInv asserts Inv on the post-state and that the logical position is end.
 func c03CheckInv(c *Cipher, end uint64) {
 	L2 := uint64(c.counter)
@@ -279,6 +296,7 @@ func c03Step(bufLen, n, pre int) {
 		verifrt.Reach("overflow-panic")
 		return
 	}
+	c03CheckPrecomp(c)
 	for i := 0; i < n; i++ {
 		verifrt.Assert(dst[i] == src[i]^want[i], "dst = src XOR keystream at logical position")
 	}
